@@ -197,33 +197,43 @@ func TestC10(t *testing.T) {
 			}
 			ms = append(ms, m)
 		}
-		nsteps := g.Range(0, 12*nm)
 		var steps []step
-		for i := 0; i < nsteps; i++ {
-			mi := g.Intn(nm)
-			m := ms[mi]
-			lab := fmt.Sprintf("l%d", g.Intn(13))
-			st := step{Metric: mi, Label: lab}
-			switch k := g.Intn(10); {
-			case k < 6:
-				st.Op = "set"
-				st.AgeIdx = g.Intn(len(agesH))
-				d, _ := m.GetDatum(lab)
-				datum.SetInt(d, int64(i+1), t0.Add(-time.Duration(agesH[st.AgeIdx]*float64(time.Hour))))
-			case k < 9:
-				st.Op = "expire"
-				e := ev.PickOne(g, expiries)
-				st.Expiry = e.String()
-				_ = m.ExpireDatum(e, lab)
-			default:
-				st.Op = "remove"
-				_ = m.RemoveDatum(lab)
+		mutateStore := func(nsteps int) {
+			for i := 0; i < nsteps; i++ {
+				mi := g.Intn(nm)
+				m := ms[mi]
+				lab := fmt.Sprintf("l%d", g.Intn(13))
+				st := step{Metric: mi, Label: lab}
+				switch k := g.Intn(10); {
+				case k < 6:
+					st.Op = "set"
+					st.AgeIdx = g.Intn(len(agesH))
+					d, _ := m.GetDatum(lab)
+					datum.SetInt(d, int64(i+1), t0.Add(-time.Duration(agesH[st.AgeIdx]*float64(time.Hour))))
+				case k < 9:
+					st.Op = "expire"
+					e := ev.PickOne(g, expiries)
+					st.Expiry = e.String()
+					_ = m.ExpireDatum(e, lab)
+				default:
+					st.Op = "remove"
+					_ = m.RemoveDatum(lab)
+				}
+				steps = append(steps, st)
 			}
-			steps = append(steps, st)
 		}
+		mutateStore(g.Range(0, 12*nm))
 		before := snapshot(s, ms, t0)
 		cur := before
-		for pass := 1; pass <= 2; pass++ {
+		// pass 1: GC of the built store; pass 2: GC again (must be a no-op);
+		// then more updates (incl. re-stamping with OLDER instants and new expiry
+		// marks) and pass 3; pass 4 again a no-op
+		for pass := 1; pass <= 4; pass++ {
+			if pass == 3 {
+				steps = append(steps, step{Op: "--- gc x2 ---"})
+				mutateStore(g.Range(1, 6*nm))
+				cur = snapshot(s, ms, t0)
+			}
 			t0p := time.Now()
 			if err := s.Gc(); err != nil {
 				r.Violation("gc-error", witness{steps, limits, cur, nil, err.Error(), pass})
@@ -233,7 +243,7 @@ func TestC10(t *testing.T) {
 			after := snapshot(s, ms, t0)
 			for i := range cur {
 				w := judge(cur[i], after[i], t0p, t1p)
-				if w == "" && pass == 2 && len(cur[i].LVs) != len(after[i].LVs) {
+				if w == "" && pass%2 == 0 && len(cur[i].LVs) != len(after[i].LVs) {
 					w = "second GC pass removed more data"
 				}
 				if w == "" {
@@ -255,8 +265,9 @@ func TestC10(t *testing.T) {
 				if w != "" {
 					r.Violation(cls(w), witness{steps, limits, []mSnap{cur[i]}, []mSnap{after[i]}, w, pass})
 				}
-				if pass == 1 {
+				if pass%2 == 1 {
 					r.Count("metrics_judged", 1)
+					r.Eval(1)
 					rem := len(cur[i].LVs) - len(after[i].LVs)
 					r.Count("data_removed", rem)
 					r.Count("data_kept", len(after[i].LVs))
@@ -273,7 +284,7 @@ func TestC10(t *testing.T) {
 			}
 			cur = after
 		}
-		r.Eval(1)
+		r.Count("stores", 1)
 	})
 }
 
